@@ -264,3 +264,44 @@ for _m in MARKERS:
     PATH_CASES.append(_mk_path(1, False, [_m])._contract.key)
 for _ms in [['', ''], ["'", ''], ['', 'h']]:
     PATH_CASES.append(_mk_path(2, True, _ms)._contract.key)
+
+
+@contract('bitcoinlib.keys.HDKey.public_master', case='hardened-path-native', props=('C03', 'C09'))
+class public_master_native:
+    """HDKey.public_master / public_master_multisig ask for m/purpose'/coin'/account' (three or four hardened steps): on a private key the result is that
+    BIP32 key (independent derivation: HMAC-SHA512 + pure-Python curve), as public key unless as_private; on a public-only key the request fails -
+    a hardened child cannot be derived from a public parent (native evaluation only)"""
+    params = {'seed': Int(0, 2 ** 128 - 1), 'account': Int(0, 5), 'shape': Int(0, 10 ** 6)}
+    native_only = True
+    bounded = 'random seeds, accounts 0..5, legacy / segwit / p2sh-segwit, plain and multisig, private and public-only parents'
+
+    def build(seed, account, shape):
+        from bounded.c09_wallet import derive as _derive
+        wt = ['legacy', 'segwit', 'p2sh-segwit'][shape % 3]
+        public_only = (shape // 3) % 2 == 1
+        multisig = (shape // 6) % 2 == 1
+        as_private = (shape // 12) % 2 == 1
+        sd = seed.to_bytes(16, 'big')
+
+        def run():
+            k = HDKey.from_seed(sd, network='bitcoin', witness_type=wt, multisig=multisig)
+            if public_only:
+                k = k.public()
+            purpose = 48 if multisig and wt != 'legacy' else 45 if multisig else {'legacy': 44, 'segwit': 84, 'p2sh-segwit': 49}[wt]
+            H = 0x80000000
+            path = [purpose + H] if purpose == 45 else [purpose + H, H, account + H] + ([(2 if wt == 'segwit' else 1) + H] if purpose == 48 else [])
+            try:
+                r = k.public_master_multisig(account_id=account, as_private=as_private) if multisig else k.public_master(account_id=account, as_private=as_private)
+            except BKeyError:
+                return ('refused', public_only, None, None)
+            kk, cc = _derive(sd, path)
+            pt = ec.mul_g(kk)
+            return ('key', public_only, (r.public_byte, r.chain, r.depth, r.is_private, r.secret if r.is_private else None),
+                    (bip32.ser_p(pt), cc, len(path), as_private, kk if as_private else None))
+        return run, [], {}
+
+    def ensures(seed, account, shape, result):
+        kind, public_only, got, want = result
+        if public_only:
+            return kind == 'refused'
+        return kind == 'key' and got == want
